@@ -7,7 +7,7 @@ import Cppcms.C12.EndToEnd
 import Cppcms.C12.Events
 import Cppcms.C12.Readback
 import Cppcms.C12.Accept
-import Cppcms.C12.FileBuffer
+import Cppcms.C12.FileBufferProofs
 /-!
 # C12 property theorems
 
